@@ -133,6 +133,16 @@ def run(ctx):
             w, ans = gen_proc(rng.fork(f"m{k}"), k + 1, generated=(i % 3 == 2))
             models.append(w)
             answers_by_model.append(ans)
+        if i % 6 == 5:
+            # every top-level step catches whatever fails beneath it, and the clients fail acts: the catches a task registered when it
+            # started have to survive the reloads a small cache forces (SQLite here)
+            for k, mw in enumerate(models):
+                for st_ in mw["steps"]:
+                    if "catches" not in st_:
+                        st_["catches"] = [{"steps": [{"id": st_["id"] + "h", "acts": [{"id": st_["id"] + "ha", "uses": gen.MSG, "key": "k" + st_["id"] + "ha"}]}]}]
+                flip = [nid for nid, ev in sorted(answers_by_model[k].items()) if ev in ("next", "submit")]
+                for nid in flip[::2]:
+                    answers_by_model[k][nid] = "error"
         if i % 4 == 3:
             # a model that finishes by itself: kept, finished processes share the cache with the waiting ones
             models.append({"id": f"m{nmodels + 1}", "steps": [{"id": "qs", "acts": [{"id": "qa", "uses": gen.MSG, "key": "kq"}]}]})
@@ -146,6 +156,8 @@ def run(ctx):
         cap = rng.pick([1, 1, 2, 3, nproc, 1024])
         workers = rng.pick([1, 2, 4, 8])
         store = "sqlite" if rng.chance(1, 3) else "mem"
+        if i % 6 == 5:
+            store, cap = "sqlite", rng.pick([1, 1, 2])
         cfg = {"keep": True, "store": store, "mode": "free", "workers": workers, "cache_cap": cap, "stuck_secs": 90}
         answers = {pid: answers_for(answers_by_model[k], int(pid[1:])) for pid, k, _ in procs}
         starts = [[models[k]["id"], v] for _, k, v in procs]
